@@ -366,5 +366,32 @@ func TestCases(t *testing.T) {
 	if err != nil {
 		t.Fatal(err)
 	}
+	// bucket bounds that are not small integers: decimal fractions and a bound beyond 2^24, with values on and around them
+	// ("per bucket bound and +Inf, the number of values not greater than the bound" -- the bound as written)
+	{
+		a := statsd.NewMetricAggregator(nil, 0, 0, 0, 0, gostatsd.TimerSubtypes{}, 1000)
+		mm := gostatsd.NewMetricMap(false)
+		for _, v := range []float64{0.3, 0.7, 0.1, 16777217, 16777216, 0.9, 1e39} {
+			mm.Receive(&gostatsd.Metric{Name: "t", Type: gostatsd.TIMER, Value: v, Rate: 1, Tags: gostatsd.Tags{"gsd_histogram:0.1_0.7_0.9_16777217_1e39"}, Timestamp: 10, Source: "s"})
+		}
+		a.ReceiveMap(mm)
+		a.Flush(time.Second)
+		tm, n := theTimer(a)
+		want := map[float64]int{0.1: 1, 0.7: 3, 0.9: 4, 16777217: 6, 1e39: 7, math.Inf(1): 7}
+		rec := map[string]any{"tag": "gsd_histogram:0.1_0.7_0.9_16777217_1e39", "values": "0.3 0.7 0.1 16777217 16777216 0.9 1e39"}
+		res.Eval(true)
+		res.Hit("decimal-and-large-bounds")
+		if n != 1 {
+			res.Fail("C08", "timer-missing", "decimal bounds: no timer flushed", rec)
+		} else {
+			got := map[float64]int{}
+			for b, c := range tm.Histogram {
+				got[float64(b)] = c
+			}
+			if fmt.Sprint(got) != fmt.Sprint(want) {
+				res.Fail("C08", "histogram", fmt.Sprintf("bounds 0.1_0.7_0.9_16777217_1e39: buckets %v want %v", got, want), rec)
+			}
+		}
+	}
 	res.Distinct = res.Evaluations
 }
